@@ -726,6 +726,8 @@ pub struct Interp {
     pub saw_concurrent_same_row_write: bool,
     /// do not assert first-committer-wins (open finding): both may commit
     pub tolerate_ww_conflict: bool,
+    /// run VACUUM even while sessions are open (it aborts them, by contract)
+    pub vacuum_aborts_sessions: bool,
 }
 
 pub fn err_is_unknown_object(text: &str) -> bool {
@@ -766,6 +768,7 @@ impl Interp {
             saw_foreign_end_between_reads: false,
             saw_concurrent_same_row_write: false,
             tolerate_ww_conflict: false,
+            vacuum_aborts_sessions: false,
         })
     }
 
@@ -989,7 +992,17 @@ impl Interp {
         self.after_read();
         if r.is_none() && self.audit_pages && self.txns.is_empty() {
             if let Some(raw) = self.db.raw() {
-                match crate::audit::audit_database(raw) {
+                let before = crate::panics::count();
+                let audited = std::panic::catch_unwind(std::panic::AssertUnwindSafe(|| crate::audit::audit_database(raw)));
+                let audited = match audited {
+                    Ok(a) => a,
+                    Err(_) => {
+                        let recs = crate::panics::take();
+                        let sig = recs.get(before.min(recs.len().saturating_sub(1))).map(|r| r.signature()).unwrap_or_default();
+                        Err(("walk_panic".to_string(), sig))
+                    }
+                };
+                match audited {
                     Ok((free, total)) => {
                         self.audits_done += 1;
                         if free > 0 {
@@ -1111,8 +1124,8 @@ impl Interp {
                     let clause_prefix = if matches!(m, MOut::Err(..)) { Some("failed_statement_partial_effect") } else { None };
                     if let Some(f) = self.full_check(&at) {
                         return Some(match clause_prefix {
-                            Some(c) => Failure { clause: c.to_string(), ..f },
-                            None => f,
+                            Some(c) if !f.clause.starts_with("audit.") => Failure { clause: c.to_string(), ..f },
+                            _ => f,
                         });
                     }
                 }
@@ -1448,7 +1461,7 @@ impl Interp {
                 }
                 if self.check_state_every_step {
                     if let Some(f) = self.full_check(&format!("after batch at step {i}")) {
-                        let clause = if model_failed { "failed_batch_partial_effect".to_string() } else { f.clause.clone() };
+                        let clause = if model_failed && !f.clause.starts_with("audit.") { "failed_batch_partial_effect".to_string() } else { f.clause.clone() };
                         return Some(Failure { clause, ..f });
                     }
                 }
@@ -1469,11 +1482,45 @@ impl Interp {
                 }
             }
             Step::Vacuum => {
-                if !self.txns.is_empty() {
+                if !self.txns.is_empty() && !self.vacuum_aborts_sessions {
                     return None; // Database::vacuum aborts active transactions by contract
+                }
+                let aborted_by_vacuum: Vec<u8> = self.txns.keys().copied().collect();
+                {
+                    // aborting these sessions is a non-commit end: respect the exclusions of open findings
+                    let mut tags = vec![];
+                    for t in self.txns.values() {
+                        for e in &t.effects {
+                            tags.push(
+                                match e {
+                                    Effect::Insert { .. } => "txn.noncommit_after_insert",
+                                    Effect::Update { .. } => "txn.noncommit_after_update",
+                                    Effect::Delete { .. } => "txn.noncommit_after_delete",
+                                    Effect::Create(_) => "txn.noncommit_after_create",
+                                    Effect::Drop(_) => "txn.noncommit_after_drop",
+                                    Effect::AddUnique { .. } => "txn.noncommit_after_create_index",
+                                    Effect::AddColumn { .. } | Effect::DropColumn { .. } => "txn.noncommit_after_alter",
+                                }
+                                .to_string(),
+                            );
+                        }
+                    }
+                    if self.skip_if_excluded(&tags) {
+                        return None;
+                    }
+                    if tags.iter().any(|t| t == "txn.noncommit_after_delete") && self.skip_if_excluded(&["admin.vacuum_after_rolled_back_delete".to_string()]) {
+                        return None;
+                    }
+                    self.tags.extend(tags);
                 }
                 if self.skip_if_excluded(&["admin.vacuum".to_string()]) {
                     return None;
+                }
+                if self.tags.contains("txn.noncommit_after_create") || self.tags.contains("ddl.create_table_failed") {
+                    if self.skip_if_excluded(&["admin.vacuum_after_rolled_back_create".to_string()]) {
+                        return None;
+                    }
+                    self.tags.insert("admin.vacuum_after_rolled_back_create".into());
                 }
                 let live_poisoned = self.poisoned_rows.iter().any(|(t, id)| self.model.committed.tables.get(t).map(|tb| tb.rows.contains_key(id)).unwrap_or(false));
                 if live_poisoned {
@@ -1492,8 +1539,21 @@ impl Interp {
                     Err(dbx::Err::Panic(p)) => return Some(self.fail("panic", format!("VACUUM: {p}"))),
                     Err(e) => return Some(self.fail("vacuum_failed", e.text())),
                 }
+                // VACUUM aborted every open transaction (its documented contract): they are gone in the model too
+                for s in aborted_by_vacuum {
+                    if let Some(t) = self.txns.remove(&s) {
+                        if t.wrote {
+                            self.tags.insert("admin.vacuum_aborted_open_writer".into());
+                            self.pending_noncommit_write = true;
+                        }
+                    }
+                    self.sess_reads.remove(&s);
+                    self.db.drop_session(s);
+                }
+                // VACUUM removes the remains of aborted transactions, index entries included
+                self.poisoned_keys.clear();
                 if self.check_state_every_step {
-                    return self.full_check(&format!("after VACUUM at step {i}")).map(|f| Failure { clause: format!("vacuum_{}", f.clause), ..f });
+                    return self.full_check(&format!("after VACUUM at step {i}")).map(|f| if f.clause.starts_with("audit.") { f } else { Failure { clause: format!("vacuum_{}", f.clause), ..f } });
                 }
                 None
             }
@@ -1510,7 +1570,7 @@ impl Interp {
                     Err(e) => return Some(self.fail("reopen_failed", e.text())),
                 }
                 if self.check_state_every_step {
-                    return self.full_check(&format!("after reopen at step {i}")).map(|f| Failure { clause: format!("reopen_{}", f.clause), ..f });
+                    return self.full_check(&format!("after reopen at step {i}")).map(|f| if f.clause.starts_with("audit.") { f } else { Failure { clause: format!("reopen_{}", f.clause), ..f } });
                 }
                 None
             }
